@@ -100,6 +100,9 @@ theorem zeroLex_wf : zeroLex.WF :=
 
 theorem zeroLex_str : zeroLex.str = ['0'] := rfl
 
+theorem zeroLex_shape : MinShape0 zeroLex :=
+  ⟨(by intro h; cases h), (by intro t e; simp [zeroLex] at e; exact e)⟩
+
 theorem zeroLex_val : zeroLex.val = 0 := by
   have : natOf (['0'] ++ []) = 0 := by decide
   simp only [Lex.val, zeroLex, this]
@@ -112,12 +115,16 @@ theorem numberCore_lex (s : List Char) (neg signed : Bool) (ip fp : List Char) (
     ∃ l' : Lex, l'.WF ∧ l'.str = numberCore s neg signed (ip ++ (if dot then '.' :: fp else [])) e p ∧
       l'.sg ≠ .plus ∧
       ((if signed then 1 else 0) + (ip ++ (if dot then '.' :: fp else [])).length + expLen e ≤ s.length →
-        (natOf (ip ++ fp) = 0 ∧ l'.val = 0) ∨
-        (MantWF (dropZeros ip) (dropTrail '0' fp) ∧
+        (natOf (ip ++ fp) = 0 ∧ l'.val = 0 ∧ l' = zeroLex) ∨
+        (MantWF (dropZeros ip) (dropTrail '0' fp) ∧ (decide (0 < p) && expNearEdge e s.length) = false ∧
           (mlen (rnd p ⟨dropZeros ip, dropTrail '0' fp, e⟩).ip (rnd p ⟨dropZeros ip, dropTrail '0' fp, e⟩).fp +
               expLen (rnd p ⟨dropZeros ip, dropTrail '0' fp, e⟩).e ≤
             mlen (dropZeros ip) (dropTrail '0' fp) + expLen e →
-           l'.val = mantVal neg (rnd p ⟨dropZeros ip, dropTrail '0' fp, e⟩)))) := by
+           l'.val = mantVal neg (rnd p ⟨dropZeros ip, dropTrail '0' fp, e⟩)) ∧
+          numberCore s neg signed (ip ++ (if dot then '.' :: fp else [])) e p =
+            printNum s neg (s.length - ((if signed then 1 else 0) + (ip.length - (dropZeros ip).length)))
+              (rnd p ⟨dropZeros ip, dropTrail '0' fp, e⟩))) ∧
+      MinShape0 l' := by
   have hipd : ∀ c ∈ ip, c ≠ '.' := fun c hc => digit_ne_dot (hip c hc)
   have hfpd : ∀ c ∈ fp, c ≠ '.' := fun c hc => digit_ne_dot (hfp c hc)
   have hsp : splitLastDot (ip ++ (if dot then '.' :: fp else [])) = (ip, if dot then some fp else none) := by
@@ -145,10 +152,10 @@ theorem numberCore_lex (s : List Char) (neg signed : Bool) (ip fp : List Char) (
       rename_i hz
       simp only [Bool.and_eq_true, List.isEmpty_iff] at hz
       right
-      refine ⟨zeroLex, zeroLex_wf, zeroLex_str, by simp [zeroLex], ?_⟩
+      refine ⟨zeroLex, zeroLex_wf, zeroLex_str, by simp [zeroLex], ?_, zeroLex_shape⟩
       intro _
       left
-      refine ⟨?_, zeroLex_val⟩
+      refine ⟨?_, zeroLex_val, rfl⟩
       rw [natOf_append, natOf_of_dropZeros_nil hz.2, natOf_of_dropTrail_nil hz.1.2]
       simp
     · rename_i hz1
@@ -157,44 +164,51 @@ theorem numberCore_lex (s : List Char) (neg signed : Bool) (ip fp : List Char) (
         simp only [Bool.and_eq_true, beq_iff_eq] at hz2
         exact absurd hz2.2 (hz3 [])
       · -- the general case
-        have hwf0 : MantWF (dropZeros ip) (dropTrail '0' fp) := by
-          refine ⟨hip.dropZeros, hfp.dropTrail '0', ?_, hz3, hdt3⟩
-          by_cases h1 : dropZeros ip = []
+        split
+        · left; rfl
+        · rename_i hguard
+          have hguard' : (decide (0 < p) && expNearEdge e s.length) = false := by
+            cases h : (decide (0 < p) && expNearEdge e s.length) with
+            | true => exact absurd h hguard
+            | false => rfl
+          have hwf0 : MantWF (dropZeros ip) (dropTrail '0' fp) := by
+            refine ⟨hip.dropZeros, hfp.dropTrail '0', ?_, hz3, hdt3⟩
+            by_cases h1 : dropZeros ip = []
+            · right
+              intro h2
+              cases hdot : dot with
+              | true => apply hz1; simp [hdot, h1, h2]
+              | false =>
+                have hfp0 := hd hdot
+                rcases hc with hc | hc
+                · rw [← hrest, hdot] at hc; simp at hc
+                · exact hc h1
+            · left; exact h1
+          have hwf := hr ⟨dropZeros ip, dropTrail '0' fp, e⟩ hwf0
+          rcases printNum_lex s neg (s.length - ((if signed then 1 else 0) + (ip.length - (dropZeros ip).length)))
+            (rnd p ⟨dropZeros ip, dropTrail '0' fp, e⟩) hwf with hs | ⟨l', hl', hv⟩
+          · left; unfold rnd at hs; exact hs
           · right
-            intro h2
-            cases hdot : dot with
-            | true => apply hz1; simp [hdot, h1, h2]
-            | false =>
-              have hfp0 := hd hdot
-              rcases hc with hc | hc
-              · rw [← hrest, hdot] at hc; simp at hc
-              · exact hc h1
-          · left; exact h1
-        have hwf := hr ⟨dropZeros ip, dropTrail '0' fp, e⟩ hwf0
-        rcases printNum_lex s neg (s.length - ((if signed then 1 else 0) + (ip.length - (dropZeros ip).length)))
-          (rnd p ⟨dropZeros ip, dropTrail '0' fp, e⟩) hwf with hs | ⟨l', hl', hv⟩
-        · left; unfold rnd at hs; exact hs
-        · right
-          refine ⟨l', hl'.wf, ?_, ?_, ?_⟩
-          · unfold rnd at hl'; exact hl'.str
-          · rw [hl'.sg]; exact sgOf_ne_plus neg
-          · intro hs
-            right
-            refine ⟨hwf0, fun hR => ?_⟩
-            apply hv
-            refine Nat.le_trans hR ?_
-            have hm := mlen_cases (dropZeros ip) (dropTrail '0' fp)
-            have hzl := dropZeros_length_le ip
-            rw [← hrest] at hs
-            cases hdot : dot with
-            | true => rw [hdot] at hs; simp only [if_true] at hs; omega
-            | false =>
-              have hfp0 := hd hdot
-              rw [hfp0] at hm hdtl
-              simp only [dropTrail_nil, List.length_nil] at hm hdtl
-              rw [hdot] at hs; simp only [Bool.false_eq_true, if_false] at hs
-              rw [hfp0, dropTrail_nil]
-              omega
+            refine ⟨l', hl'.wf, ?_, ?_, ?_, hl'.shape.to0⟩
+            · unfold rnd at hl'; exact hl'.str
+            · rw [hl'.sg]; exact sgOf_ne_plus neg
+            · intro hs
+              right
+              refine ⟨hwf0, hguard', fun hR => ?_, rfl⟩
+              apply hv
+              refine Nat.le_trans hR ?_
+              have hm := mlen_cases (dropZeros ip) (dropTrail '0' fp)
+              have hzl := dropZeros_length_le ip
+              rw [← hrest] at hs
+              cases hdot : dot with
+              | true => rw [hdot] at hs; simp only [if_true] at hs; omega
+              | false =>
+                have hfp0 := hd hdot
+                rw [hfp0] at hm hdtl
+                simp only [dropTrail_nil, List.length_nil] at hm hdtl
+                rw [hdot] at hs; simp only [Bool.false_eq_true, if_false] at hs
+                rw [hfp0, dropTrail_nil]
+                omega
   · -- `000` without a dot
     have hrest0 : rest = 0 := by omega
     have hdz : dropZeros ip = [] := by
@@ -210,10 +224,10 @@ theorem numberCore_lex (s : List Char) (neg signed : Bool) (ip fp : List Char) (
     rw [htr2 hrest0 hdz hipne]
     right
     simp only [hdot, Bool.false_and, Bool.false_eq_true, if_false, Bool.not_false, Bool.true_and, beq_self_eq_true, if_true]
-    refine ⟨zeroLex, zeroLex_wf, zeroLex_str, by simp [zeroLex], ?_⟩
+    refine ⟨zeroLex, zeroLex_wf, zeroLex_str, by simp [zeroLex], ?_, zeroLex_shape⟩
     intro _
     left
-    refine ⟨?_, zeroLex_val⟩
+    refine ⟨?_, zeroLex_val, rfl⟩
     rw [hfp0, List.append_nil, natOf_of_dropZeros_nil hdz]
 
 theorem takeWhile_all {p : Char → Bool} {l : List Char} (h : ∀ x ∈ l, p x = true) : l.takeWhile p = l := by
@@ -290,12 +304,18 @@ theorem number_lex (l : Lex) (hwf : l.WF) (p : Int)
     (hr : ∀ m0 : Mant, MantWF m0.ip m0.fp → MantWF (rnd p m0).ip (rnd p m0).fp) :
     number l.str p = l.str ∨
     ∃ l' : Lex, l'.WF ∧ l'.str = number l.str p ∧ l'.sg ≠ .plus ∧ (p ≤ 0 → l'.val = l.val) ∧
-      ((l.val = 0 ∧ l'.val = 0) ∨
+      ((l.val = 0 ∧ l'.val = 0 ∧ l' = zeroLex) ∨
        (MantWF (dropZeros l.ip) (dropTrail '0' l.fp) ∧
+        (decide (0 < p) && expNearEdge l.expVal l.str.length) = false ∧
         (mlen (rnd p ⟨dropZeros l.ip, dropTrail '0' l.fp, l.expVal⟩).ip (rnd p ⟨dropZeros l.ip, dropTrail '0' l.fp, l.expVal⟩).fp +
             expLen (rnd p ⟨dropZeros l.ip, dropTrail '0' l.fp, l.expVal⟩).e ≤
           mlen (dropZeros l.ip) (dropTrail '0' l.fp) + expLen l.expVal →
-         l'.val = mantVal l.sg.neg (rnd p ⟨dropZeros l.ip, dropTrail '0' l.fp, l.expVal⟩)))) := by
+         l'.val = mantVal l.sg.neg (rnd p ⟨dropZeros l.ip, dropTrail '0' l.fp, l.expVal⟩)) ∧
+        number l.str p =
+          printNum l.str l.sg.neg
+            (l.str.length - ((if (l.sg != .none) = true then 1 else 0) + (l.ip.length - (dropZeros l.ip).length)))
+            (rnd p ⟨dropZeros l.ip, dropTrail '0' l.fp, l.expVal⟩))) ∧
+      MinShape0 l' := by
   unfold number
   split
   · left; rfl
@@ -354,22 +374,22 @@ theorem number_lex (l : Lex) (hwf : l.WF) (p : Int)
       have hdp : l.dotPart = if l.dot then '.' :: l.fp else [] := rfl
       rw [hdp] at hBl ⊢
       rcases numberCore_lex l.str l.sg.neg (l.sg != .none) l.ip l.fp l.dot l.expVal p hwf.ip hwf.fp hwf.nodot
-        hwf.nonempty hr with h | ⟨l', h1, h2, h3, h4⟩
+        hwf.nonempty hr with h | ⟨l', h1, h2, h3, h4, hsh⟩
       · left; exact h
       · right
         have hs : (if (l.sg != Sg.none) = true then 1 else 0) +
             (l.ip ++ if l.dot = true then '.' :: l.fp else []).length + expLen l.expVal ≤ l.str.length := by
           rw [hs4, hBl]; omega
         have hval0 : l.val = dval l.sg.neg (natOf (l.ip ++ l.fp)) (l.expVal - (l.fp.length : Int)) := rfl
-        refine ⟨l', h1, h2, h3, ?_, ?_⟩
+        refine ⟨l', h1, h2, h3, ?_, ?_, hsh⟩
         · intro hp
-          rcases h4 hs with ⟨z1, z2⟩ | ⟨_, hv⟩
+          rcases h4 hs with ⟨z1, z2, _⟩ | ⟨_, _, hv, _⟩
           · rw [z2, hval0, z1, dval_zero]
           · rw [rnd_nonpos hp] at hv
             rw [hv (Nat.le_refl _), hval0, trim_val]
             rfl
-        · rcases h4 hs with ⟨z1, z2⟩ | ⟨hm, hv⟩
-          · left; exact ⟨by rw [hval0, z1, dval_zero], z2⟩
-          · right; exact ⟨hm, hv⟩
+        · rcases h4 hs with ⟨z1, z2, z3⟩ | ⟨hm, hgd, hv, hW⟩
+          · left; exact ⟨by rw [hval0, z1, dval_zero], z2, z3⟩
+          · right; exact ⟨hm, hgd, hv, hW⟩
 
 end Verif.Proofs.Num
